@@ -278,6 +278,101 @@ def run_targets(_, ctx):
     ctx.sample({"bad_targets": ["", "NEW", "rising", "north", "apo"]})
 
 
+# -- every year end: queries a fraction of a day apart across 31 December / 1 January -----------------
+
+YE_OFFSETS = [-1.5, -0.5, -0.1, -0.001, -1e-6, 0.0, 1e-6, 0.001, 0.5, 1.0]     # days from 1 January 0h
+
+
+def check_year_end(case):
+    """The lunation count of every finder is derived from the fractional year: across each year end
+    the results must not move backwards (and must stay one period apart) for queries hours apart."""
+    fn, target, y = case["finder"], case["target"], case["year"]
+    per = FINDERS[fn][1]
+    j1 = fast().n(y + 1, 1, 1) - 0.5
+    out = []
+    prev = prev_q = None
+    for off in YE_OFFSETS:
+        q = j1 + off
+        try:
+            re, _ = call(fn, target, q)
+        except Exception as ex:
+            out.append(("finder_exception", "%s(%r, %r) at the end of year %d raised %r" % (fn, q, target, y, ex), None))
+            continue
+        if prev is not None:
+            dd = re - prev
+            if dd < -1e-6:
+                out.append(("backwards", "%s %r moves backwards by %r d as the query advances from %r to %r "
+                            "(end of year %d)" % (fn, target, dd, prev_q, q, y), -dd))
+            elif dd > 1e-6 and not (0.85 <= dd / per <= 1.15):
+                out.append(("gap", "%s %r: results for queries %r and %r (end of year %d) are %.3f periods apart"
+                            % (fn, target, prev_q, q, y, dd / per), dd / per))
+        prev, prev_q = re, q
+    return out
+
+
+def run_year_ends(block, ctx):
+    for case in block:
+        ctx.evals += len(YE_OFFSETS)
+        ctx.nt_count += 1
+        res = check_year_end(case)
+        for site, msg, dev in res:
+            ctx.viol(case, msg, dev=dev, site=site)
+        ctx.outcome((case["finder"], case["target"], len(res)))
+    ctx.obs(block[0], block[-1])
+    ctx.sample(block[0])
+
+
+# -- one Epoch object moved with set() between queries ---------------------------------------------
+
+RE_DATES = [(1990, 6, 1.5), (-1500, 3, 1.0), (3900, 9, 9.0), (2010, 1, 1.25), (1582, 10, 15.0), (100, 2, 29.0)]
+
+
+def _outcome(fn, target, ep):
+    try:
+        r = getattr(Moon, fn)(ep, target)
+    except ValueError:
+        return ("ValueError",)
+    except Exception as ex:
+        return ("exception", repr(ex))
+    if isinstance(r, tuple):
+        return ("ok", r[0].jde(), float(r[1]))
+    return ("ok", r.jde())
+
+
+def check_reused_epoch(case):
+    fn, target = case["finder"], case["target"]
+    hist = [tuple(d) for d in case["history"]]
+    out = []
+    ep = Epoch(*hist[0])
+    for k, d in enumerate(hist):
+        if k:
+            ep.set(*d)
+        got = _outcome(fn, target, ep)
+        exp = _outcome(fn, target, Epoch(*d))
+        if got != exp:
+            out.append("%s(%r) with one Epoch moved by set() through %r: %r, with a fresh Epoch %r"
+                       % (fn, target, hist[:k + 1], got, exp))
+            break
+        if ep.jde() != Epoch(*d).jde():
+            out.append("%s(%r) moved the caller's Epoch" % (fn, target))
+            break
+    return out
+
+
+def run_reused(block, ctx):
+    for case in block:
+        ctx.evals += 2 * len(case["history"])
+        ctx.traces += 1
+        ctx.transitions += len(case["history"])
+        ctx.nt_count += 1
+        res = check_reused_epoch(case)
+        for msg in res:
+            ctx.viol(case, msg, site="reused_epoch")
+        ctx.outcome((case["finder"], case["target"], len(res)))
+        ctx.obs(case, len(res))
+    ctx.sample(block[0])
+
+
 def clauses(tier):
     if tier == "thorough":
         pos = []
@@ -309,7 +404,16 @@ def clauses(tier):
                 a = fast().n(y, 1, 1) - 0.5 + 0.3
                 b = fast().n(y, 12, 31) - 0.5 + 0.3
                 sweeps.append((fn, t, a, b, 1.0, 1 if tier == "quick" else 3, "year%d" % y))
+    import itertools
+    ye = [{"finder": fn, "target": t, "year": y} for fn, (targets, per) in FINDERS.items() for t in targets
+          for y in range(-2000, 3999)]
+    reused = [{"finder": fn, "target": t, "history": [list(d) for d in h]}
+              for fn, (targets, per) in FINDERS.items() for t in targets
+              for n in ((2, 3) if tier == "thorough" else (2,)) for h in itertools.permutations(RE_DATES, n)]
     return [
+        Clause("year_ends", chunks(ye, 64), run_year_ends, lambda c: [m for _, m, _ in check_year_end(c)],
+               floor=10000),
+        Clause("reused_epoch", chunks(reused, 16), run_reused, check_reused_epoch, floor=200, shape="H"),
         Clause("position", chunks(pos, 64), run_position, lambda c: [m for _, m, _ in check_position(c["jde"])],
                floor=1000),
         Clause("finders", sweeps, run_sweep, replay_sweep, floor=1000),
